@@ -75,6 +75,15 @@ func coreFlatScope() scope { // the same shape over the larger core pools
 	return scope{2, 1, 2, 1, 2, 2, 2, "CoreAtoms", "CoreJoins", "CoreLeaves", "{0}", "CoreQuotes", "CoreLists", "TinyAtx",
 		"{TRUE}", "FlatWheel", "FlatAtomWheel", allInvariants}
 }
+func lineStartScope() scope { // one paragraph of <= 2 atoms: a word and tokens that look like block starts, soft breaks as written
+	return scope{1, 1, 1, 1, 2, 1, 2, "LineStartAtoms", "LineJoins", "NoLeaves", "{0}", "TinyQuotes", "TinyLists", "TinyAtx",
+		"{TRUE}", "ParaWheel", "LineAtomWheel", allInvariants}
+}
+
+// small widths at which a token in the middle of a short line lands at the start of a wrapped line
+// and is still followed by text (at width 1 every token is alone on its line)
+var lineStartWidths = []int{3, 5, 8}
+
 func tinyDeepScope() scope { // three nodes, nesting depth two, one-atom paragraphs, over the tiny pools
 	return scope{2, 1, 2, 2, 1, 3, 2, "TinyAtoms", "CoreJoins", "TinyLeaves", "{0}", "TinyQuotes", "TinyLists", "TinyAtx",
 		"{TRUE}", "FlatWheel", "FlatAtomWheel", allInvariants}
@@ -339,7 +348,7 @@ func run(c *lib.Ctx) error {
 		name string
 		sc   scope
 	}
-	exhs := []named{{"tiny", tinyScope()}}
+	exhs := []named{{"tiny", tinyScope()}, {"line-starts", lineStartScope()}}
 	if c.Thorough() {
 		exhs = append(exhs, named{"core-flat", coreFlatScope()}, named{"tiny-deep", tinyDeepScope()})
 	}
@@ -349,7 +358,7 @@ func run(c *lib.Ctx) error {
 	}
 	nSim := c.Pick(2, 6)
 	perSim := c.Pick(220, 3500)
-	bounds := map[string]any{"random": sim.describe(), "random_runs": nSim, "random_traces_per_run": perSim, "reflow_widths": reflowWidths}
+	bounds := map[string]any{"random": sim.describe(), "random_runs": nSim, "random_traces_per_run": perSim, "reflow_widths": reflowWidths, "line_start_extra_widths": lineStartWidths, "seeded_width_per_document": "2..16"}
 	for _, e := range exhs {
 		bounds["exhaustive "+e.name] = e.sc.describe()
 	}
@@ -426,23 +435,30 @@ func run(c *lib.Ctx) error {
 
 	var ins []input
 	seen := map[string]bool{}
-	add := func(src string, d genDoc) {
+	add := func(src string, d genDoc, extra []int) {
 		t := d.text()
 		if seen[t] {
 			return
 		}
 		seen[t] = true
-		ins = append(ins, input{Src: src, Name: src + ":" + hash8(t), Text: t, Widths: reflowWidths, Skel: d.Skel, Sig: d.Sig})
+		// the fixed widths, the scope's extra widths, and one seeded width in 2..16 per document
+		h := sha256.Sum256([]byte(t))
+		ws := mergeWidths(reflowWidths, extra, []int{2 + int((uint64(h[0])<<8|uint64(h[1]))+uint64(c.Seed))%15})
+		ins = append(ins, input{Src: src, Name: src + ":" + hash8(t), Text: t, Widths: ws, Skel: d.Skel, Sig: d.Sig})
 	}
-	for _, ds := range exhDocs {
+	for i, ds := range exhDocs {
+		var extra []int
+		if exhs[i].name == "line-starts" {
+			extra = lineStartWidths
+		}
 		for _, d := range ds {
-			add("gen-exhaustive", d)
+			add("gen-exhaustive", d, extra)
 		}
 	}
 	nExh := len(ins)
 	for _, ds := range simDocs {
 		for _, d := range ds {
-			add("gen-random", d)
+			add("gen-random", d, nil)
 		}
 	}
 	c.Set("generated_distinct_texts", map[string]int{"exhaustive": nExh, "random": len(ins) - nExh})
@@ -468,17 +484,7 @@ func run(c *lib.Ctx) error {
 		ins []corpusInput
 	}{{"spec", specIns}, {"fuzz", fuzzIns}, {"suppl", loadSupplemental()}} {
 		for _, ci := range grp.ins {
-			ws := append([]int{}, reflowWidths...)
-			for _, w := range ci.Widths {
-				dup := false
-				for _, x := range ws {
-					dup = dup || x == w
-				}
-				if !dup {
-					ws = append(ws, w)
-				}
-			}
-			sort.Ints(ws)
+			ws := mergeWidths(reflowWidths, ci.Widths)
 			ins = append(ins, input{Src: grp.src, Name: ci.Name, Text: ci.Text, Widths: ws})
 		}
 	}
@@ -511,6 +517,21 @@ func run(c *lib.Ctx) error {
 	c.Assume("coverage-guided fuzzing (named in the property's quantifier) is outside this technique family: inputs are the model's documents (exhaustive small scope + seeded random walks of the same model) and the checked-in corpora")
 	c.Assume("corpus inputs with tabs, CR or invalid UTF-8 (documented limits of the parser / filter of the repository's fuzz targets) and those FmtCodec.Unsupported() reports are skipped; generated documents are judged regardless of that report")
 	return nil
+}
+
+func mergeWidths(lists ...[]int) []int {
+	set := map[int]bool{}
+	var out []int
+	for _, l := range lists {
+		for _, w := range l {
+			if w > 0 && !set[w] {
+				set[w] = true
+				out = append(out, w)
+			}
+		}
+	}
+	sort.Ints(out)
+	return out
 }
 
 // keyOf gives the structural key of a rejected relation.
